@@ -140,6 +140,7 @@ class SessionManager:
         self._history_cache = pylru.lrucache(1000)
         self._history_lookups = 0
         self._history_hits = 0
+        self._touched_count = 0
         self._tx_hashes_cache = pylru.lrucache(1000)
         self._tx_hashes_lookups = 0
         self._tx_hashes_hits = 0
@@ -828,7 +829,12 @@ class SessionManager:
             result = self._history_cache[hashX]
             self._history_hits += 1
         except KeyError:
-            result = await self.db.limited_history(hashX, limit=limit)
+            # Ensure the history is fresh before placing in the cache
+            while True:
+                touched_count = self._touched_count
+                result = await self.db.limited_history(hashX, limit=limit)
+                if touched_count == self._touched_count:
+                    break
             cost += 0.1 + len(result) * 0.001
             if len(result) >= limit:
                 result = RPCError(BAD_REQUEST, 'history too large', cost=cost)
@@ -844,6 +850,7 @@ class SessionManager:
         if height_changed:
             await self._refresh_hsub_results(height)
         # Invalidate our history cache for touched hashXs
+        self._touched_count += 1
         cache = self._history_cache
         for hashX in set(cache).intersection(touched):
             del cache[hashX]
